@@ -65,6 +65,8 @@ pub struct SimDisk {
     io_calls: usize,
     eintr_pending: bool,
     pub stats: DiskStats,
+    /// paths that were created or renamed onto since the last arm_write()
+    pub touched: Vec<String>,
 }
 
 impl SimDisk {
@@ -84,6 +86,7 @@ impl SimDisk {
             io_calls: 0,
             eintr_pending: false,
             stats: DiskStats::default(),
+            touched: Vec::new(),
         }
     }
 
@@ -91,6 +94,7 @@ impl SimDisk {
         self.wfault = f;
         self.fired = false;
         self.accepted = 0;
+        self.touched.clear();
     }
 
     pub fn arm_read(&mut self, f: RFault) {
@@ -195,6 +199,7 @@ impl Disk for SimDisk {
             return Err(err(libc::EACCES));
         }
         let k = key(path);
+        self.touched.push(k.clone());
         let old = self.files.get(&k).map(|f| f.bytes.clone());
         self.files.insert(
             k.clone(),
@@ -347,6 +352,7 @@ impl Disk for SimDisk {
         let Some(f) = self.files.remove(&key(from)) else {
             return Err(err(libc::ENOENT));
         };
+        self.touched.push(key(to));
         let old = self.files.get(&key(to)).map(|x| x.bytes.clone());
         self.files.insert(
             key(to),
